@@ -175,3 +175,35 @@ const fn multi_exponentiate_montgomery_form_internal<const LIMBS: usize, const R
 
     z
 }
+
+/// Verification hook: forwards to the private [`compute_powers`].
+#[cfg(crypto_bigint_verif)]
+pub(crate) const fn verif_compute_powers<const LIMBS: usize>(
+    x: &Uint<LIMBS>,
+    modulus: &Odd<Uint<LIMBS>>,
+    one: &Uint<LIMBS>,
+    mod_neg_inv: Limb,
+) -> [Uint<LIMBS>; 1 << WINDOW] {
+    compute_powers(x, modulus, one, mod_neg_inv)
+}
+
+/// Verification hook: forwards to the private [`multi_exponentiate_montgomery_form_internal`].
+#[cfg(crypto_bigint_verif)]
+pub(crate) const fn verif_multi_exponentiate_montgomery_form_internal<
+    const LIMBS: usize,
+    const RHS_LIMBS: usize,
+>(
+    powers_and_exponents: &[([Uint<LIMBS>; 1 << WINDOW], Uint<RHS_LIMBS>)],
+    exponent_bits: u32,
+    modulus: &Odd<Uint<LIMBS>>,
+    one: &Uint<LIMBS>,
+    mod_neg_inv: Limb,
+) -> Uint<LIMBS> {
+    multi_exponentiate_montgomery_form_internal(
+        powers_and_exponents,
+        exponent_bits,
+        modulus,
+        one,
+        mod_neg_inv,
+    )
+}
